@@ -1839,9 +1839,17 @@ fn oracle_c20(fields: &[&str]) -> String {
     // the statement covers requested decimals and dimension; otherwise only count the lines
     let lines: Vec<&str> = out.lines().collect();
     if rc != 0 {
-        // a legitimate error exit: roundtrip with differing success counts
+        // kp's own guard: a roundtrip whose two directions report different numbers of successes ends with an
+        // error and prints nothing for the batch (the known finding kp-roundtrip-count-mismatch)
         if flag("rt") {
-            return "oracle skip roundtrip count mismatch".to_string();
+            let mut data = tuples.clone();
+            let dir1 = if flag("inv") { Inv } else { Fwd };
+            let dir2 = if flag("inv") { Fwd } else { Inv };
+            let n1 = ctx.apply(op, dir1, &mut data).unwrap_or(0);
+            let n2 = ctx.apply(op, dir2, &mut data).unwrap_or(0);
+            if n1 != n2 {
+                return format!("oracle FAIL kp --roundtrip ends with an error and prints nothing for {} coordinate lines: the two directions report different numbers of successes ({n1} and {n2})", tuples.len());
+            }
         }
         return format!("oracle FAIL non-zero exit status on valid input ({} tuples)", tuples.len());
     }
